@@ -370,6 +370,23 @@ ALSO = {
     "C17": " Thorough tier: the identities on the naturals are also proved by TLAPS (spec/proofs/TimestampArith.tla).",
     "C19": " The ids a statistics visitor is handed obey the rule too. Also: a buffer ending inside an id field: incomplete with a hint no larger than the bytes missing in that field; id bytes incl. blank, tab, NBSP, invalid UTF-8.",
 }
+# what each relation demands after it was narrowed to exactly its statement (DESIGN 13.1 and corrections log 8-22): where this differs from
+# the text above, this is what the check does
+ASBUILT = {
+    "C01": " As built: the relation is the round trip alone - parse(as_bytes(m) ++ suffix) = (m, whole length, suffix) - for values that are well formed with the payload length their OWN serialisation has (generated values get the payload length of the crate's writer before use); that the bytes are the prescribed layout is checked by C02 only. Also through Message::new (roundnew).",
+    "C02": " As built: replayed cases are calls of the message parser without a filter only (--accept @parser); the verdicts of the skipper, the storage-header helpers and of sessions with a filter are replayed by C04 / C06 / C09 with their own relations and, against the full reference, by ./check extras.",
+    "C04": " As built: the skipper's frame may start at any occurrence of the pattern too; every successful call must return the input's suffix (by address) behind the reported count; sessions contain frames of 256..1000 bytes and at the 16-bit limit with filters drawn from them.",
+    "C05": " As built: the premise is that the bytes are the serialisation of a well-formed message value (payload length = the one the bytes have), not that the reference decoder accepts them.",
+    "C07": " As built: read_message is compared with parsing each delivered piece up to the terminal element; the terminal element must be an ending the statement allows for the stream (any error variant counts as an error).",
+    "C11": " As built: result \\in Accept(model) - Intended(model) under either order of equal sequence numbers and either resolution of duplicated signal / coding ids, plus refusal when the model leaves the supported vocabulary; Intended(model) \\in Accept(model) is an invariant of MCFibex.",
+    "C13": " As built: compared are the type description and the value of each argument (name, unit and fixed-point data are not mentioned by the statement).",
+    "C14": " As built: the legs through the parser are conditional (if the parser returns a message around the byte / word, the decoded fields are the prescribed ones; the canonical template and one with four payload bytes), with a counter that requires the legs to be taken.",
+    "C15": " As built: the built message equals the model's up to the payload length, which must be the one the written payload has; for configurations that describe no well-formed message only what the statement names is compared; the 16 prepended bytes must parse back to the given time and id (their layout is C02's); len / as_bytes must not panic for well-formed arguments, valid() never.",
+    "C18": " As built: outside the stated domain any value or nothing is accepted (only a panic is excluded); 128-bit integers on a fixed-point kind likewise.",
+    "C19": " As built: sizes above 65535 are outside the quantifier (premise); every ids event carries a control parse of the same message with plain ids (a refusal of both says nothing about the id rule).",
+}
 for _k, _v in ALSO.items():
+    PLANS[_k]["explanation"] += _v
+for _k, _v in ASBUILT.items():
     PLANS[_k]["explanation"] += _v
 
